@@ -265,16 +265,19 @@ def rule_u3b(F):
 
 def rule_u4(F):
     r = RuleResult("C06.U4", "recursive-type detection traverses type arguments of named types", floor=1)
-    b = F.body("typechecker::type_cycle::visit")
-    if b is None:
+    # the visitor of a `Type` is found by what it does (a function of the cycle detector's module that takes a type apart), not by name
+    cands = [x for x in F.all_bodies() if x.hir and x.path.startswith("typechecker::type_cycle::") and "{closure" not in x.path and "::tests::" not in x.path
+             and any("Type::Name" in hir.pat_desc(arm["pat"]) for m in hir.find_match_on(x.hir["value"], "Type::", min_arms=3) for arm in m["arms"])]
+    if not cands:
         r.missing("typechecker::type_cycle::visit")
         return r
-    h = b.hir["value"]
-    for m in hir.find_match_on(h, "Type::", min_arms=3):
-        for arm in m["arms"]:
-            if "Type::Name" in hir.pat_desc(arm["pat"]):
+    for b in cands:
+        for m in hir.find_match_on(b.hir["value"], "Type::", min_arms=3):
+            for arm in m["arms"]:
+                if "Type::Name" not in hir.pat_desc(arm["pat"]):
+                    continue
                 fields = {n.get("n") for n in hir.nodes(arm["body"], "field")}
-                r.inst("Type::Name arm", {"fields_read": sorted(x for x in fields if x)})
+                r.inst("Type::Name arm", {"fn": b.path, "fields_read": sorted(x for x in fields if x)})
                 if "arguments" not in fields:
                     r.bad(b.path, "Type::Name arm ignores arguments", relfile(b.file), arm["line"],
                           "the cycle detector follows only the name of a named type, not its type arguments: `record A { x: A? }` (Option[A]) is accepted and layout computation recurses forever")
